@@ -276,6 +276,16 @@ func C09(c *core.Ctx) error {
 		files["b/blank.go"] = "package b\n\ntype _ interface{ N() }\n\ntype _[T any] interface{ G(T) }\n"
 		root["packages"].(core.M)[P("b")] = core.M{"config": core.M{"all": true}}
 	})
+	// null where a map is expected, at every place of the tree that has not been covered by "null bodies" elsewhere
+	add("null entry in a configs list", false, func(root core.M, pcs, ics []core.M, files map[string]string, s *c09scn) {
+		ics[0]["configs"] = []any{nil, core.M{"structname": "SecondIA"}}
+		s.expect = []string{P("a") + "|IA2|MockIA2", P("a") + "|IA|MockIA", P("a") + "|IA|SecondIA", P("b") + "|IB|MockIB", P("c") + "|IC|MockIC"}
+	})
+	add("null config sections and null template-data at package and interface level", false, func(root core.M, pcs, ics []core.M, files map[string]string, s *c09scn) {
+		pkgs := root["packages"].(core.M)
+		pkgs[P("b")] = core.M{"config": nil, "interfaces": core.M{"IB": core.M{"config": nil, "configs": nil}}}
+		pkgs[P("c")] = core.M{"config": core.M{"template-data": nil, "replace-type": nil, "exclude-subpkg-regex": nil}, "interfaces": core.M{"IC": core.M{"config": core.M{"template-data": nil}}}}
+	})
 	add("build-tagged file without build-tags (tag off)", false, func(root core.M, pcs, ics []core.M, files map[string]string, s *c09scn) {
 		files["a/tagged.go"] = "//go:build special\n\npackage a\n\ntype Tagged interface{ T() }\n"
 	})
